@@ -138,26 +138,29 @@ Theorem C20_deepcopy_sharing : forall h d h' d' kvs kvs',
 Proof. exact deepcopy_sharing. Qed.
 Print Assumptions C20_deepcopy_sharing.
 
-(** an uninitialised programme stores what the initialisation operator returned and runs the loop on that state *)
-Theorem C20_evolve_initialises : forall ops initres nrep ngen li st,
+(** an uninitialised programme stores what the initialisation operator returned and runs the loop on that state, for every
+    operator — also one that declares [miscout] as a required parameter, as the abstract interface does (full strength since
+    commit b17284d4; all theorems above then apply to the state with start := initres) *)
+Theorem C20_evolve_initialises : forall ops strict initres nrep ngen li st,
   is_initialized st = false -> length initres = 5 ->
-  evolve ops false initres nrep ngen li st =
+  evolve ops strict initres nrep ngen li st =
     (let st1 := mkSt (p_heap st) (p_stash st) initres (p_work st) (p_t st) (p_tmax st) (p_rep st) (p_mcfg st) (p_misc st) in
      let '(st', evs, ok) := iter (Z.to_nat nrep) (replicate ops ngen li) st1 in
      (st', mkEv T_INIT 0 0 0 [] [] [] [] 0 [] (p_heap st) (p_heap st) :: evs, ok)).
 Proof. exact evolve_initialises. Qed.
 Print Assumptions C20_evolve_initialises.
 
-(** ... but "for all operator implementations" fails at initialisation: initialize() omits the [miscout] argument that the
-    abstract InitializationOperator declares, so an operator following the interface literally makes evolve raise
-    before anything is evaluated (known finding C20-initialize-miscout) *)
-Theorem C20_initialize_strict_refuted :
+(** documentation of the repaired defect C20-initialize-miscout: the former call initop.initialize( ** kwargs ) without the
+    [miscout] argument ([evolve_old]) made evolve fail before any call for an interface-conforming operator, where the
+    current code succeeds *)
+Theorem C20_initialize_without_miscout_refuted :
   exists (ops : opset) (st : pstate) (initres : list (option loc)),
     is_initialized st = false /\ length initres = 5 /\
     forallb (fun o : option loc => match o with Some _ => true | None => false end) initres = true /\
-    evolve ops true initres 1 1 true st = (st, [], false).
-Proof. exact init_strict_refuted. Qed.
-Print Assumptions C20_initialize_strict_refuted.
+    evolve_old ops true initres 1 1 true st = (st, [], false) /\
+    snd (evolve ops true initres 1 1 true st) = true.
+Proof. exact init_without_miscout_refuted. Qed.
+Print Assumptions C20_initialize_without_miscout_refuted.
 
 (** non-vacuity: a concrete five-container start state with shared leaves and one dict in two slots meets every
     hypothesis, with in-place mutating, aliasing and remembering operators *)
